@@ -7,6 +7,7 @@ Streams (all randomness from the seed):
               fragment (`viol=-`): commands / post-selection / post-processing routing are those of
               the wire-id specification `canon` up to an injective register naming
   simulator   harness simulator == pytket get_unitary / get_statevector on measurement-free circuits
+  mua         from_tk.make_units_adjacent on every single two-qubit gate (exhaustive, small widths) == model
   oracle      (the property) exported circuit simulated exactly + post-selection + scalar +
               post-processing == the circuit's mixed evaluation; eval(backend) / get_counts(backend)
               with an exact-frequency backend == local evaluation; from_tk(to_tk(c)) evaluates to
@@ -15,7 +16,6 @@ Streams (all randomness from the seed):
 """
 import os
 import random
-import time
 
 for _v in ("OMP_NUM_THREADS", "OPENBLAS_NUM_THREADS", "MKL_NUM_THREADS"):
     os.environ.setdefault(_v, "1")      # tiny tensors: threads only cost time
@@ -149,16 +149,17 @@ def run(tier, seed, replay=None):
     ]
     rep.lean = lean_obligations(PROP, thorough=(tier == "thorough"))
     quick = tier == "quick"
-    n_tk = 60 if quick else 800
-    budget = dict(corr=400 if quick else 6000,      # functional correspondence + refinement
-                  oracle=110 if quick else 1600,    # + meaning of the export
-                  roundtrip=70 if quick else 1000,  # + import of the export
-                  backend=40 if quick else 500,     # + eval / get_counts through the exact backend
+    n_tk = 50 if quick else 600
+    budget = dict(corr=300 if quick else 5000,      # functional correspondence + refinement
+                  oracle=90 if quick else 1200,    # + meaning of the export
+                  roundtrip=55 if quick else 700,  # + import of the export
+                  backend=30 if quick else 350,     # + eval / get_counts through the exact backend
                   max_units=5 if quick else 6)      # size limit for evaluating imported circuits
     rng = random.Random(seed)
     drv = Driver()
     try:
         simulator_stream(rep, rng, n_tk)
+        adjacent_stream(rep, drv, 5 if quick else 6, Circuit)
         export_stream(rep, rng, drv, budget, Circuit)
         import_stream(rep, rng, n_tk, Circuit, budget["max_units"])
     finally:
@@ -189,6 +190,30 @@ def simulator_stream(rep, rng, n):
         if not close(arr.reshape(-1), np.abs(sv) ** 2):
             rep.disagree("simulator", desc, "|statevector|^2", "harness branch simulation differs")
         rep.count("simulator_checked")
+
+
+# --------------------------------------------------------------------------- make_units_adjacent
+
+def adjacent_stream(rep, drv, max_n, Circuit):
+    """from_tk of every single two-qubit gate on up to `max_n` qubits: offset of the gate and offsets
+    of the SWAP boxes in front of it, real code == model (exhaustive)."""
+    import pytket as tk
+    from discopy.quantum.circuit import Swap
+    cases = [(n, a, b) for n in range(2, max_n + 1) for a in range(n) for b in range(n) if a != b]
+    answers = drv.ask_many(["mua 2 %d %d" % (a, b) for _, a, b in cases])
+    for (n, a, b), ans in zip(cases, answers):
+        d = Circuit.from_tk(tk.Circuit(n).CX(a, b))
+        body = list(zip(d.boxes, d.offsets))[n:]
+        swaps = []
+        for box, off in body:
+            if not isinstance(box, Swap):
+                real = "%d %s" % (off, " ".join([str(len(swaps))] + [str(o) for o in swaps]))
+                break
+            swaps.append(off)
+        if real != ans:
+            rep.disagree("mua", dict(n=n, qubits=[a, b]), real, ans)
+        rep.case("mua %d %d %d" % (n, a, b), abs(a - b) > 1)
+        rep.count("adjacent_checked")
 
 
 # --------------------------------------------------------------------------- export
